@@ -15,6 +15,9 @@ Rejection is always safe for the property; to keep the check from going vacuous 
 integrands is bounded below.
 C14-must   every normal exit of FormData.__init__ has run the arity check with the form's arguments and
            the complex_mode flag (must-pass-through on the AST).
+The family contains every two-branch combinator (sum, list tensor, conditional, nested lists) over every
+pair of branch kinds (v, conj(v), f*v, conj(v)*f, 0, 1.0 and the rank-2 analogues), so that merges of arities
+with inconsistent conjugation or affine parts are exercised.  C14-key: shared MEMO-KEY rule.
 """
 
 from __future__ import annotations
